@@ -57,6 +57,14 @@ def as_dim(v):
     return None
 
 
+def _conc(d):
+    if d == ():
+        return 1
+    if d is not None and len(d) == 1 and d[0].startswith("#") and d[0][1:].isdigit():
+        return int(d[0][1:])
+    return None
+
+
 def shape_from_arg(v):
     """Shape described by an int / tuple-of-ints abstract argument."""
     if v is None:
@@ -366,6 +374,16 @@ def binop(I, node, op, l, r):
             out.tags["dim"] = dim_mul(dl, dr)
         elif isinstance(op, (ast.FloorDiv, ast.Mod, ast.Sub, ast.Add)):
             out.tags["dimexpr"] = (opn, l, r)
+            # concrete small extents (#k) support ± constants: #2 - 1 = 1
+            ka = _conc(dl) if dl is not None else (l.const if (l.known and isinstance(l.const, int)) else None)
+            kb = _conc(dr) if dr is not None else (r.const if (r.known and isinstance(r.const, int)) else None)
+            if ka is not None and kb is not None and isinstance(op, (ast.Sub, ast.Add)):
+                k = ka - kb if isinstance(op, ast.Sub) else ka + kb
+                if k == 1:
+                    out.tags["dim"] = ()
+                elif k > 1:
+                    out.tags["dim"] = (f"#{k}",)
+                out.const = k if (l.known and r.known) else U
         # sizes feed stacking only: they are SHAPE origins
         out.shp = out.shp | out.data
         out.data = E
@@ -389,6 +407,8 @@ def binop(I, node, op, l, r):
                                   or l.tag("ones") or r.tag("ones") else "mismatch"))
                 u = None
             out.unit = u
+            if ok and isinstance(l.unit, dict) and isinstance(r.unit, dict) and l.unit:
+                I.emit("typed_op", node, op=opn, unit=l.unit)
         else:
             out.unit = None
         out.frame = frame_addsub(I, node, isinstance(op, ast.Add), l, r)
@@ -608,6 +628,9 @@ def subscript(I, e, b):
         elif new_axes == "fancy1d":
             basic = False
             new_axes = Shape((None,) + tuple(shape.axes[1:])) if (not shape.ell and shape.axes) else None
+        elif isinstance(new_axes, tuple) and new_axes and new_axes[0] == "fancyshape":
+            basic = False
+            new_axes = new_axes[1]
     else:
         for el in elems:
             if not _basic_index(I, el):
@@ -703,14 +726,22 @@ def _index_shape(I, e, shape, elems, b):
         return None
     res = []
     pos = 0
+    nfancy = 0
     for el in elems:
         r = _apply_index(I, el, axes, pos)
         if r == "fancy":
             # an index array / mask on one axis: that axis becomes unknown, the rest is kept when the
             # index is known to be one-dimensional
             v = I.ev(el)
-            if len(elems) == 1 and (v.tag("ndim") == 1 or (v.shape is not None and v.shape.rank == 1)):
+            one_d = (v.tag("ndim") == 1 or (v.shape is not None and v.shape.rank == 1)
+                     or v.tag("kind") in ("list", "tuple", "range"))
+            if len(elems) == 1 and one_d:
                 return "fancy1d"
+            if one_d and nfancy == 0 and pos < len(axes):
+                nfancy += 1
+                res.append(None)
+                pos += 1
+                continue
             return "fancy"
         if r == "new":
             res.append(())
@@ -720,6 +751,8 @@ def _index_shape(I, e, shape, elems, b):
             res.append(r)
             pos += 1
     res.extend(axes[pos:])
+    if nfancy:
+        return ("fancyshape", Shape(res, shape.ell))
     return Shape(res, shape.ell)
 
 
